@@ -368,3 +368,12 @@ package protocol
 //@   requires C13.result-code: lockCommandResult != nil && lockCommandResult.Result <= RESULT_LOCK_ACK_WAITING
 //@ func ITextProtocol.GetParser
 //@   preserves *
+
+// C14: a text-protocol identifier of up to 16 characters becomes the 16-byte id the README describes: exactly the
+// characters when there are 16 of them, otherwise right-aligned and zero-filled on the left (every byte is written:
+// the target is a reused command object)
+//@ func (*TextCommandConverter).ConvertArgId2LockId
+//@   requires lockId != nil
+//@   loop#1 invariant 0 <= i && i <= 16 && argLen == len(argId) && argIndex == 16 - argLen && forall(k, 0, i, lockId[k] == ite(k < argIndex, 0, argId[k - argIndex]))
+//@   ensures C14.text.id.exact: implies(len(argId) == 16, forall(k, 0, 16, lockId[k] == argId[k]))
+//@   ensures C14.text.id.padded: implies(len(argId) < 16, forall(k, 0, 16, lockId[k] == ite(k < 16 - len(argId), 0, argId[k - (16 - len(argId))])))
